@@ -39,7 +39,8 @@ TIERS = {
 }
 PROBES = ["pending_then_resolved", "premature_use", "other_module_used_first", "cyclic_program", "same_target_twice", "future_annotations",
           "whole_quoted", "local_class", "schema_generated", "constrained_ref", "self_spelling", "acyclic_direct_twin",
-          "local_name_collides_with_module", "same_target_three_times"]
+          "local_name_collides_with_module", "same_target_three_times", "function_partially_resolvable", "generator_types_by_reference",
+          "subclass_used", "property_output_by_reference"]
 
 CONTAINERS = ["opt", "list", "dict", "union", "req"]
 
@@ -89,11 +90,16 @@ def class_source(prog, ci, S, direct=False):
     if c.get("lim"):
         a = f"PosI{S}" if direct else repr(f"PosI{S}")
         L.append(f"    lim: {a} = Field(lt=10, default=1)")
+    if c.get("pprop") is not None:
+        # a property whose setter takes a plain int and whose getter returns (a mapping for) another class
+        q = f"C{c['pprop']}{S}" if direct else repr(f"C{c['pprop']}{S}")
+        L += ["    _p = 0", "    @property", f"    def prop(self) -> {q}:", "        return {'v': self._p}",
+              "    @prop.setter", "    def prop(self, val: int = Field(required=False)):", "        self._p = val"]
     return "\n".join(L) + "\n"
 
 
 HEADER = ("from utype import Schema, DataClass, Field, Options, Rule\nimport utype\n"
-          "from typing import List, Dict, Optional, Union\nfrom utype.utils.compat import Self\n")
+          "from typing import List, Dict, Optional, Union, Iterator, Generator\nfrom utype.utils.compat import Self\n")
 
 
 def alias_source(S):
@@ -105,6 +111,28 @@ def func_source(prog, S, direct=False):
     if direct:
         return (f"@utype.parse\ndef fn{S}(a: C{a}{S}, n: int = 0) -> C{b}{S}:\n    return {{'v': a.v + n}}\n")
     return (f"@utype.parse\ndef fn{S}(a: 'C{a}{S}', n: int = 0) -> 'C{b}{S}':\n    return {{'v': a.v + n}}\n")
+
+
+def func2_source(prog, S, direct=False):
+    a, b = prog["func2"]["p0"], prog["func2"]["p1"]
+    qa = f"C{a}{S}" if direct else repr(f"C{a}{S}")
+    qb = f"C{b}{S}" if direct else repr(f"C{b}{S}")
+    return (f"@utype.parse\ndef fn2{S}(p0: Optional[{qa}] = None, p1: {qb} = None, p2: List[{qb}] = ()):\n"
+            f"    return [p0, p1, list(p2)]\n")
+
+
+def gen_source(prog, S, direct=False):
+    c = prog["genfn"]["to"]
+    q = f"C{c}{S}" if direct else repr(f"C{c}{S}")
+    if prog["genfn"]["form"] == "iter":
+        return (f"@utype.parse\ndef gen{S}(n: int = 0) -> Iterator[{q}]:\n    for i in range(n):\n        yield {{'v': str(i)}}\n")
+    return (f"@utype.parse\ndef gen{S}(n: int = 0) -> Generator[{q}, None, {q}]:\n    for i in range(n):\n        yield {{'v': str(i)}}\n"
+            f"    return {{'v': 100 + n}}\n")
+
+
+def sub_source(prog, S):
+    c = prog["sub"]["of"]
+    return f"class D{c}{S}(C{c}{S}):\n    extra: int = 0\n"
 
 
 def local_source(S, cont2, collide=False):
@@ -183,12 +211,31 @@ def model_class(prog, ci, data, depth=0):
         if not (0 < lv < 10):
             raise Reject()
         out.append(["lim", lv])
+    if c.get("pprop") is not None:
+        pv = _to_int(data.get("prop", 0))
+        out.append(["prop", model_class(prog, c["pprop"], {"v": pv}, depth + 1)])
     kind = "schema" if c.get("base", "schema") == "schema" else "dataclass"
     return [f"{kind}:C{ci}", out]
 
 
 def model_outcome(prog, use):
     try:
+        if use["what"] == "fn2":
+            d = use["data"]
+            a, b = prog["func2"]["p0"], prog["func2"]["p1"]
+            r0 = model_class(prog, a, d["p0"]) if d.get("p0") is not None else None
+            r1 = model_class(prog, b, d["p1"]) if d.get("p1") is not None else None
+            r2 = [model_class(prog, b, x) for x in d.get("p2", [])]
+            return ["ok", kernel.canon_mapping_unordered(["list", [r0, r1, ["list", r2]]])]
+        if use["what"] == "gen":
+            c = prog["genfn"]["to"]
+            n = use["n"]
+            ys = [model_class(prog, c, {"v": str(i)}) for i in range(n)]
+            ret = model_class(prog, c, {"v": 100 + n}) if prog["genfn"]["form"] == "gen" else None
+            return ["ok", kernel.canon_mapping_unordered(["list", [["list", ys], ret]])]
+        if use["what"] == "sub":
+            m = model_class(prog, use["cls"], use["data"])
+            return ["ok", kernel.canon_mapping_unordered([m[0].replace(":C", ":D"), m[1] + [["extra", 0]]])]
         if use["what"] == "fn":
             a = model_class(prog, prog["func"]["arg"], use["data"])
             av = dict((k, v) for k, v in a[1])["v"]
@@ -239,12 +286,15 @@ def gen_input(rng, prog, ci, depth, bad):
                 d[key] = x
     if c.get("lim") and rng.random() < 0.5:
         d["lim"] = rng.choice([2, "3", 9, 10, 0])
+    if c.get("pprop") is not None and rng.random() < 0.6:
+        d["prop"] = rng.choice([1, "2", 7])
     return d
 
 
 def is_cyclic(prog):
     n = len(prog["classes"])
-    adj = {i: {r["to"] for r in prog["classes"][i]["refs"]} for i in range(n)}
+    adj = {i: {r["to"] for r in prog["classes"][i]["refs"]} | ({prog["classes"][i]["pprop"]} if prog["classes"][i].get("pprop") is not None else set())
+           for i in range(n)}
     seen, stack = set(), set()
 
     def dfs(u):
@@ -268,6 +318,8 @@ def topo(prog):
         done.add(u)
         for r in prog["classes"][u]["refs"]:
             visit(r["to"])
+        if prog["classes"][u].get("pprop") is not None:
+            visit(prog["classes"][u]["pprop"])
         order.append(u)
     for i in range(n):
         visit(i)
@@ -314,6 +366,13 @@ def generate(rng, tier):
                 used_c.add(r_["cont"])
         classes.append({"refs": refs, "base": rng.choice(["schema", "schema", "dataclass"]), "lim": rng.random() < 0.15})
     prog = {"classes": classes, "future": future, "func": {"arg": rng.randrange(n), "ret": rng.randrange(n)}}
+    no_req = [ci for ci in range(n) if not any(r["cont"] == "req" for r in classes[ci]["refs"])]
+    if rng.random() < 0.4:
+        prog["func2"] = {"p0": rng.randrange(n), "p1": rng.randrange(n)}
+    if rng.random() < 0.35 and no_req:
+        prog["genfn"] = {"to": rng.choice(no_req), "form": rng.choice(["iter", "gen"])}
+    if rng.random() < 0.3:
+        prog["sub"] = {"of": rng.randrange(n)}
     # break required cycles (a required cycle has no finite valid input; keep at most opt/list/... on back edges)
     order = list(range(n))
     rng.shuffle(order)   # definition order
@@ -328,12 +387,27 @@ def generate(rng, tier):
             if pos[r["to"]] < pos[ci] and not future:
                 choices += ["direct", "direct"]
             r["spell"] = "future" if future else rng.choice(choices)
+    # (req containers may have been turned into opt above: recompute which classes can be built from {'v': ..} alone)
+    no_req = [ci for ci in range(n) if not any(r["cont"] == "req" for r in classes[ci]["refs"])]
+    if "genfn" in prog and prog["genfn"]["to"] not in no_req:
+        prog.pop("genfn")
+    for ci in range(n):
+        if classes[ci]["base"] == "schema" and no_req and rng.random() < 0.2 and not future:
+            classes[ci]["pprop"] = rng.choice(no_req)
     plan = {"prop": ID, "kind": "module", "prog": prog, "order": order}
     # events: defines in `order` (alias and function somewhere), uses interleaved
     ev = [{"ev": "define", "cls": c} for c in order]
     if any(c.get("lim") for c in classes):
         ev.insert(rng.randrange(len(ev) + 1), {"ev": "define_alias"})
     ev.insert(rng.randrange(len(ev) + 1), {"ev": "define_fn"})
+    if "func2" in prog:
+        ev.insert(rng.randrange(len(ev) + 1), {"ev": "define_fn2"})
+    if "genfn" in prog:
+        ev.insert(rng.randrange(len(ev) + 1), {"ev": "define_gen"})
+    if "sub" in prog:
+        # a subclass can only be declared after its base
+        at = [i for i, e in enumerate(ev) if e["ev"] == "define" and e["cls"] == prog["sub"]["of"]][0]
+        ev.insert(rng.randrange(at + 1, len(ev) + 1), {"ev": "define_sub"})
     uses = []
     for _ in range(rng.choice([2, 3, 4, 5])):
         bad = [1 if rng.random() < 0.3 else 0]
@@ -342,6 +416,23 @@ def generate(rng, tier):
         else:
             ci = rng.randrange(n)
             uses.append({"ev": "use", "what": "cls", "cls": ci, "data": gen_input(rng, prog, ci, 0, bad)})
+    if "func2" in prog:
+        for _ in range(rng.choice([1, 2])):
+            bad = [1 if rng.random() < 0.25 else 0]
+            d = {}
+            if rng.random() < 0.35:
+                d["p0"] = gen_input(rng, prog, prog["func2"]["p0"], 1, bad)
+            if rng.random() < 0.8:
+                d["p1"] = gen_input(rng, prog, prog["func2"]["p1"], 1, bad)
+            if rng.random() < 0.4:
+                d["p2"] = [gen_input(rng, prog, prog["func2"]["p1"], 2, bad) for _j in range(rng.choice([1, 2]))]
+            uses.append({"ev": "use", "what": "fn2", "data": d})
+    if "genfn" in prog:
+        uses.append({"ev": "use", "what": "gen", "n": rng.choice([1, 2, 3]), "data": {}})
+    if "sub" in prog:
+        for _ in range(rng.choice([1, 2])):
+            bad = [1 if rng.random() < 0.25 else 0]
+            uses.append({"ev": "use", "what": "sub", "cls": prog["sub"]["of"], "data": gen_input(rng, prog, prog["sub"]["of"], 0, bad)})
     if rng.random() < 0.3:
         uses.append({"ev": "schema", "cls": rng.randrange(n)})
     if rng.random() < 0.3:
@@ -376,7 +467,32 @@ def _needs(prog, ci, seen=None):
     seen.add(ci)
     for r in prog["classes"][ci]["refs"]:
         _needs(prog, r["to"], seen)
+    if prog["classes"][ci].get("pprop") is not None:
+        _needs(prog, prog["classes"][ci]["pprop"], seen)
     return seen
+
+
+def _special_call(mod, S, prog, u):
+    if u["what"] == "fn2":
+        f = getattr(mod, "fn2" + S)
+        return lambda: f(**copy.deepcopy(u["data"]))
+    if u["what"] == "gen":
+        g = getattr(mod, "gen" + S)
+
+        def drive():
+            it = g(u["n"])
+            ys = []
+            ret = None
+            while True:
+                try:
+                    ys.append(next(it))
+                except StopIteration as e:
+                    ret = e.value
+                    break
+            return [ys, ret]
+        return drive
+    cls = getattr(mod, f"D{u['cls']}{S}")
+    return lambda: cls.__from__(copy.deepcopy(u["data"]))
 
 
 def run_direct_twin(prog, uses):
@@ -386,10 +502,18 @@ def run_direct_twin(prog, uses):
     for ci in topo(prog):
         src.append(class_source(prog, ci, S, direct=True))
     src.append(func_source(prog, S, direct=True))
+    if "func2" in prog:
+        src.append(func2_source(prog, S, direct=True))
+    if "genfn" in prog:
+        src.append(gen_source(prog, S, direct=True))
+    if "sub" in prog:
+        src.append(sub_source(prog, S))
     mod = kernel.make_module("verif_c17_direct_" + S.strip("_"), "\n".join(src))
     out = []
     for u in uses:
-        if u["what"] == "fn":
+        if u["what"] in ("fn2", "gen", "sub"):
+            out.append(_outcome(_special_call(mod, S, prog, u)))
+        elif u["what"] == "fn":
             f = getattr(mod, "fn" + S)
             out.append(_outcome(lambda: f(copy.deepcopy(u["data"]), u.get("n", 0))))
         else:
@@ -466,6 +590,7 @@ def execute(plan):
     else:
         want_all = model
     defined = set()
+    extra_defined = set()
     alias_defined = not any(c.get("lim") for c in prog["classes"])
     fn_defined = False
     pending_seen = False
@@ -497,6 +622,16 @@ def execute(plan):
             if prog["func"]["arg"] not in defined or prog["func"]["ret"] not in defined:
                 pending_seen = True
             res.ev(n, "define_fn")
+        elif k in ("define_fn2", "define_gen", "define_sub"):
+            src = {"define_fn2": func2_source, "define_gen": gen_source}.get(k)
+            src = src(prog, S) if src else sub_source(prog, S)
+            if prog.get("future"):
+                exec(compile(future_hdr + src, f"<{mod.__name__}>", "exec"), mod.__dict__)
+            else:
+                kernel.exec_into(mod, src)
+            extra_defined.add(k)
+            pending_seen = True
+            res.ev(n, k)
         elif k == "other_module":
             om = kernel.make_module("verif_c17_other_" + S.strip("_"), other_module_source(prog, S))
             o = _outcome(lambda: getattr(om, "C0" + S).__from__({"v": "x", "r0": {"v": "y"}, "r1": [{"v": "z"}], "r2": {"k": {}}}))
@@ -513,7 +648,24 @@ def execute(plan):
         elif k == "use":
             want = want_all[ui]
             ui += 1
-            if e["what"] == "fn":
+            if e["what"] in ("fn2", "gen", "sub"):
+                need_def = {"fn2": "define_fn2", "gen": "define_gen", "sub": "define_sub"}[e["what"]]
+                if need_def not in extra_defined:
+                    res.ev(n, "use", e["what"], "skipped(undefined)")
+                    continue
+                if e["what"] == "fn2":
+                    # a function tolerates names that do not exist yet as long as the call does not hand in a value for them
+                    needs = set()
+                    if e["data"].get("p0") is not None:
+                        needs |= _needs(prog, prog["func2"]["p0"])
+                    if e["data"].get("p1") is not None or e["data"].get("p2"):
+                        needs |= _needs(prog, prog["func2"]["p1"])
+                elif e["what"] == "gen":
+                    needs = _needs(prog, prog["genfn"]["to"])
+                else:
+                    needs = _needs(prog, e["cls"])
+                call = _special_call(mod, S, prog, e)
+            elif e["what"] == "fn":
                 if not fn_defined:
                     res.ev(n, "use", "fn", "skipped(undefined)")
                     continue
@@ -536,6 +688,14 @@ def execute(plan):
                 res.ev(n, "use", e.get("cls", "fn"), "premature", got[0])
                 continue
             res.ev(n, "use", e.get("cls", "fn"), got)
+            if e["what"] == "fn2" and not (_needs(prog, prog["func2"]["p0"]) | _needs(prog, prog["func2"]["p1"])).issubset(defined):
+                res.stats["probe:function_partially_resolvable"] += 1
+            if e["what"] == "gen":
+                res.stats["probe:generator_types_by_reference"] += 1
+            if e["what"] == "sub":
+                res.stats["probe:subclass_used"] += 1
+            if e["what"] == "cls" and prog["classes"][e["cls"]].get("pprop") is not None:
+                res.stats["probe:property_output_by_reference"] += 1
             if pending_seen:
                 res.stats["probe:pending_then_resolved"] += 1
                 res.nontrivial = True
@@ -643,5 +803,15 @@ def _strip_key(plan, ci, key):
                 for y in x.values():
                     walk(r["to"], y)
     for e in plan["events"]:
-        if e["ev"] == "use":
-            walk(prog["func"]["arg"] if e["what"] == "fn" else e["cls"], e["data"])
+        if e["ev"] != "use":
+            continue
+        w = e["what"]
+        if w == "fn":
+            walk(prog["func"]["arg"], e["data"])
+        elif w in ("cls", "sub"):
+            walk(e["cls"], e["data"])
+        elif w == "fn2":
+            walk(prog["func2"]["p0"], e["data"].get("p0"))
+            walk(prog["func2"]["p1"], e["data"].get("p1"))
+            for x in e["data"].get("p2", []):
+                walk(prog["func2"]["p1"], x)
